@@ -69,4 +69,65 @@ ThmXings == U2(LAMBDA ra, rb : (ClassOf(ra,rb) = "T") =>
           /\ Cardinality(EdgeHits(pt, ra)) = 1 /\ Cardinality(EdgeHits(pt, rb)) = 1
           /\ \A hh \in EdgeHits(pt, ra) \cup EdgeHits(pt, rb) :
                 hh.par[2] # 0 /\ hh.par[1] * hh.par[2] > 0 /\ hh.par[1] * hh.par[1] < hh.par[2] * hh.par[2])
+
+(***************************************************************************)
+(* Code-shaped models checked against the declarative layer.               *)
+(***************************************************************************)
+\* --- point membership (C02): the decision table of SimpleShape._contains_point
+\* Winding number of a directed boundary loop (given by its directed unit edges) about an
+\* interior point of cell cc, by casting a ray in +x: +1 for every edge crossing it upwards,
+\* -1 downwards (what IntegrateJordan.winding_number computes for a point off the curve).
+LoopEdges(lp) == {<<lp[kk], lp[(kk % Len(lp)) + 1]>> : kk \in 1..Len(lp)}
+RayWind(lp, cc) ==
+    FoldSet(LAMBDA ee, acc : acc +
+              (IF ee[1][1] = ee[2][1] /\ ee[1][1] >= cc[1]                 \* vertical edge at x >= right side of the cell
+               THEN (IF ee[1][2] < cc[2] /\ cc[2] <= ee[2][2] THEN 1           \* upwards across the ray y = cc[2] - 1/2
+                     ELSE IF ee[2][2] < cc[2] /\ cc[2] <= ee[1][2] THEN -1 ELSE 0)
+               ELSE 0), 0, LoopEdges(lp))
+\* orientation of a loop: sign of its signed area (float(jordan) > 0 in the code)
+LoopArea2(lp) == FoldSet(LAMBDA ee, acc : acc + (XC(ee[1][1]) * YC(ee[2][2]) - XC(ee[2][1]) * YC(ee[1][2])), 0, LoopEdges(lp))
+\* SimpleShape._contains_point for a point off the boundary (both values of the flag agree there):
+\*   counter-clockwise: wind > 0 / wind = 1 ;  clockwise: wind > -1 / wind = 0
+SimpleContains(lp, cc, closed) ==
+    LET ww == RayWind(lp, cc) IN
+    IF LoopArea2(lp) > 0 THEN (IF closed THEN ww > 0 ELSE ww = 1) ELSE (IF closed THEN ww > -1 ELSE ww = 0)
+\* a region of kind S or C is the intersection of the simple shapes of its loops
+\* (ConnectedShape._contains_point: all sub-shapes)
+ThmWindingTable == U1(LAMBDA ra : (~Pinch(ra) /\ Kind(ra) \in {"S", "C"}) =>
+    \A cc \in Cells : \A closed \in BOOLEAN :
+        (\A lp \in Loops(ra) : SimpleContains(lp, cc, closed)) = CellIn(cc, ra))
+
+\* --- containment between two simple shapes (C03): SimpleShape.__contains_simple after
+\* the repair (both unbounded: recurse on the bounded complements)
+BoxOf(ra) == LET pts == BdryPts(ra) IN
+             [x0 |-> Min({pt[1] : pt \in pts}), x1 |-> Max({pt[1] : pt \in pts}),
+              y0 |-> Min({pt[2] : pt \in pts}), y1 |-> Max({pt[2] : pt \in pts})]
+BoxesMeet(ba, bb) == ~(ba.x1 < bb.x0 \/ bb.x1 < ba.x0 \/ ba.y1 < bb.y0 \/ bb.y1 < ba.y0)
+AreaOf(ra) == Moment(ra, <<0,0>>)
+RECURSIVE ContainsSimple(_,_)
+\* does (simple) self contain (simple) other ?
+ContainsSimple(self, other) ==
+    LET aA == AreaOf(other)  aB == AreaOf(self) IN
+    IF aA < 0 /\ aB > 0 THEN FALSE
+    ELSE IF ~BoxesMeet(BoxOf(self), BoxOf(other)) THEN aA > 0 /\ aB < 0
+    ELSE IF aA > 0 /\ aB < 0 THEN BdryIn(other, self, TRUE) /\ ~BdryIn(self, other, TRUE)
+    ELSE IF aA > aB \/ ~BdryIn(other, self, TRUE) THEN FALSE
+    ELSE IF aA > 0 THEN TRUE
+    ELSE ContainsSimple(RNot(other), RNot(self))
+ThmContainsSimple == U2(LAMBDA ra, rb :
+    (~Pinch(ra) /\ ~Pinch(rb) /\ Kind(ra) = "S" /\ Kind(rb) = "S" /\ ClassOf(ra, rb) = "T")
+        => ContainsSimple(ra, rb) = RSubset(rb, ra))
+\* the pinned code answered TRUE in the last branch ("both unbounded") without testing:
+\* TLC refutes it (expected counterexample: the complements of an L-shape and of a square
+\* in its notch, universe U2notch) - kept to show that the theorem above has teeth
+ContainsSimplePinned(self, other) ==
+    LET aA == AreaOf(other)  aB == AreaOf(self) IN
+    IF aA < 0 /\ aB > 0 THEN FALSE
+    ELSE IF ~BoxesMeet(BoxOf(self), BoxOf(other)) THEN aA > 0 /\ aB < 0
+    ELSE IF aA > 0 /\ aB < 0 THEN BdryIn(other, self, TRUE) /\ ~BdryIn(self, other, TRUE)
+    ELSE IF aA > aB \/ ~BdryIn(other, self, TRUE) THEN FALSE
+    ELSE TRUE
+RefutedContainsSimplePinned == U2(LAMBDA ra, rb :
+    (~Pinch(ra) /\ ~Pinch(rb) /\ Kind(ra) = "S" /\ Kind(rb) = "S" /\ ClassOf(ra, rb) = "T")
+        => ContainsSimplePinned(ra, rb) = RSubset(rb, ra))
 =============================================================================
